@@ -88,6 +88,8 @@ def run_one(ctx, W, out, chooser, terms, tag, slow_pm=False, sleepy=False, with_
     for (c, p, what, ev) in SC.launch_violations(W, trace):
         cls = []
         ctx.fail(dict(case, component=c, producer=p, at=ev), what, cls)
+    for (ev, what) in SC.stage_state_violations(W, trace)[:1]:
+        ctx.fail(dict(case, at=ev), what, [])
     terms.append(((SC.coq_scase if sleepy else SC.coq_case)(W, out, trace), case))
     if len(trace) > 6:
         ctx.sample({'workflow': W, 'outcome': out, 'schedule': evs,
@@ -154,6 +156,8 @@ def run_patched(ctx, W, out, chooser, pterms, tag, patcher, who='C01'):
                 ctx.fail(dict(case, at=ev), 'a component failed but its stage was not reported as failed (live patch)', [])
     for (c, p, what, ev) in SC.launch_violations(Wf, ptrace):
         ctx.fail(dict(case, component=c, producer=p, at=ev), what + ' (live patch)', [])
+    for (ev, what) in SC.stage_state_violations(Wf, trace)[:1]:
+        ctx.fail(dict(case, at=ev), what + ' (live patch)', [])
     pterms.append((SC.coq_pcase(W, outf, trace), case))
     if npatch and len(trace) > 8:
         ctx.sample({'workflow': W, 'patched_workflow': Wf, 'schedule': evs,
